@@ -29,7 +29,9 @@ Inductive bnode : Type :=
 | BFoldKeyed (init : val) (acc : val -> val -> val) (x : bnode)
 | BReduceKeyed (f : val -> val -> val) (x : bnode)
 | BGen (init : val) (f : val -> val -> val * gen) (x : bnode)
-| BDefer (x : bnode).
+| BDefer (x : bnode)
+| BChainFirst (x y : bnode)                          (* Optional::or / unwrap_or: chain_first_n(1) *)
+| BReduceKeyedWm (f : val -> val -> val) (x w : bnode).   (* KeyedStream::reduce_watermark *)
 
 (* operators of DFIR used only here *)
 Definition sort_step (_ : unit) (xs : list val) : list val * unit := (vsort xs, tt).
@@ -39,6 +41,39 @@ Definition chain_step (_ : unit) (xy : list val * list val) : list val * unit :=
   (fst xy ++ snd xy, tt).
 Definition anti_tick_step (s : list val) (pn : list val * list val) : list val * list val :=
   (anti (s ++ snd pn) (fst pn), s ++ snd pn).
+
+Definition chain_first_step (_ : unit) (xy : list val * list val) : list val * unit :=
+  (firstn 1 (fst xy ++ snd xy), tt).
+
+(* ReduceKeyedWatermark: the payloads (inl) are chained before the watermark (inr) into one
+   fold::<'tick> whose closure is transcribed here; its accumulator is (HashMap, current watermark) *)
+Definition wm_keep (w : val) (e : val * val) : bool := negb (vltb (fst e) w).   (* *k >= watermark *)
+Definition wm_acc (f : val -> val -> val) (st : list (val * val) * option val) (it : val + val)
+  : list (val * val) * option val :=
+  match it with
+  | inl kv =>
+      match snd st with
+      | Some c => if vltb (vfst kv) c then st else (kreduce_upd f (fst st) kv, snd st)
+      | None => (kreduce_upd f (fst st) kv, snd st)
+      end
+  | inr w =>
+      match snd st with
+      | Some c => if vleb w c then st else (filter (wm_keep w) (fst st), Some w)
+      | None => (filter (wm_keep w) (fst st), Some w)
+      end
+  end.
+Definition wm_fold f (xs ws : list val) : list val :=
+  kentries (fst (fold_left (wm_acc f) (map inl xs ++ map inr ws) ([], None))).
+Definition wm_step f (_ : unit) (xw : list val * list val) : list val * unit :=
+  (wm_fold f (fst xw) (snd xw), tt).
+(* specification for an Optional watermark (at most one value); longer (ill-typed) watermark
+   lists are left as the emitted behaviour *)
+Definition wm_spec f (xs ws : list val) : list val :=
+  match ws with
+  | [] => kentries (kreduce_list f xs)
+  | [w] => kentries (filter (wm_keep w) (kreduce_list f xs))
+  | _ => wm_fold f xs ws
+  end.
 
 (* emitted semantics: one DFIR state machine per node, state reset at the end of every tick
    ('tick), except defer_tick_lazy whose buffer is what crosses the tick boundary *)
@@ -63,6 +98,8 @@ Fixpoint brun (n : bnode) (bs : list env) : list (list val) :=
   | BReduceKeyed f x => op_run LTick [] (kreduce_step f) (brun x bs)
   | BGen init f x => op_run LTick GInit (run_items (gen_istep init f)) (brun x bs)
   | BDefer x => op_run LStatic [] defer_step (brun x bs)
+  | BChainFirst x y => op_run LTick tt chain_first_step (combine (brun x bs) (brun y bs))
+  | BReduceKeyedWm f x w => op_run LTick tt (wm_step f) (combine (brun x bs) (brun w bs))
   end.
 
 (* specification: the finite-batch list function of every operator *)
@@ -92,6 +129,8 @@ Fixpoint bspec (n : bnode) (bs : list env) : list (list val) :=
   | BReduceKeyed f x => map (fun xs => kentries (kreduce_list f xs)) (bspec x bs)
   | BGen init f x => map (gen_list f init) (bspec x bs)
   | BDefer x => shift (bspec x bs)
+  | BChainFirst x y => map (fun p => firstn 1 (fst p ++ snd p)) (combine (bspec x bs) (bspec y bs))
+  | BReduceKeyedWm f x w => map (fun p => wm_spec f (fst p) (snd p)) (combine (bspec x bs) (bspec w bs))
   end.
 
 (* the Ordering parameter as the Rust signatures compute it (since /repo 62bf4bf2be4 a join /
@@ -105,8 +144,8 @@ Fixpoint bord (n : bnode) : bool :=
   | BChain x y | BJoin x y | BCross x y => bord x && bord y
   | BSort _ | BEnumerate _ => true
   | BAntiJoin x _ | BCrossSingleton x _ => bord x
-  | BFold _ _ _ | BReduce _ _ => true
-  | BFoldKeyed _ _ _ | BReduceKeyed _ _ => false
+  | BFold _ _ _ | BReduce _ _ | BChainFirst _ _ => true
+  | BFoldKeyed _ _ _ | BReduceKeyed _ _ | BReduceKeyedWm _ _ _ => false
   end.
 (* the typing before the fix: the LEFT ordering, whatever the right ordering is *)
 Fixpoint bord_before_fix (n : bnode) : bool :=
@@ -118,8 +157,8 @@ Fixpoint bord_before_fix (n : bnode) : bool :=
   | BChain x y => bord_before_fix x && bord_before_fix y
   | BSort _ | BEnumerate _ => true
   | BAntiJoin x _ | BCrossSingleton x _ => bord_before_fix x
-  | BFold _ _ _ | BReduce _ _ => true
-  | BFoldKeyed _ _ _ | BReduceKeyed _ _ => false
+  | BFold _ _ _ | BReduce _ _ | BChainFirst _ _ => true
+  | BFoldKeyed _ _ _ | BReduceKeyed _ _ | BReduceKeyedWm _ _ _ => false
   end.
 
 Open Scope string_scope.
@@ -144,6 +183,8 @@ Fixpoint bemit (n : bnode) : list string :=
   | BReduceKeyed _ x => "reduce_keyed<'tick>" :: bemit x
   | BGen _ _ x => "scan<'tick>" :: "flat_map" :: bemit x
   | BDefer x => "defer_tick_lazy" :: bemit x
+  | BChainFirst x y => "chain_first_n" :: bemit x ++ bemit y
+  | BReduceKeyedWm _ x w => "chain" :: "map" :: "map" :: "fold<'tick>" :: "flat_map" :: bemit x ++ bemit w
   end.
 Close Scope string_scope.
 
@@ -229,6 +270,10 @@ Fixpoint bspec_o (sigma : list val -> list val) (n : bnode) (bs : list env) : li
   | BReduceKeyed f x => map (fun xs => kentries (kreduce_list f xs)) (bspec_o sigma x bs)
   | BGen init f x => map (gen_list f init) (bspec_o sigma x bs)
   | BDefer x => shift (bspec_o sigma x bs)
+  | BChainFirst x y =>
+      map (fun p => firstn 1 (fst p ++ snd p)) (combine (bspec_o sigma x bs) (bspec_o sigma y bs))
+  | BReduceKeyedWm f x w =>
+      map (fun p => wm_spec f (fst p) (snd p)) (combine (bspec_o sigma x bs) (bspec_o sigma w bs))
   end.
 
 (* what the staged API demands of order-sensitive operators (IsOrdered bounds, commutativity
@@ -240,6 +285,7 @@ Fixpoint bwf (n : bnode) : Prop :=
   | BChain x y | BJoin x y | BCross x y | BAntiJoin x y => bwf x /\ bwf y
   | BEnumerate x | BGen _ _ x | BFoldKeyed _ _ x | BReduceKeyed _ x => bord x = true /\ bwf x
   | BCrossSingleton x s => bord s = true /\ bwf x /\ bwf s
+  | BChainFirst x y | BReduceKeyedWm _ x y => bord x = true /\ bord y = true /\ bwf x /\ bwf y
   | BFold _ acc x => bwf x /\ (bord x = false -> fold_comm acc)
   | BReduce f x => bwf x /\ (bord x = false -> comm_assoc f)
   end.
